@@ -806,6 +806,80 @@ def _negate(t):
     return ast.UnaryOp(op=ast.Not(), operand=t)
 
 
+# ------------------------------------------------------------------------------------------- helpers shared across modules
+def _module_bindings(tree):
+    """name -> ('import', module, original name) | ('local', None, None) for every module-level binding"""
+    out = {}
+    for st in tree.body:
+        if isinstance(st, ast.ImportFrom):
+            for a in st.names:
+                out[a.asname or a.name] = ("import", st.module or "", a.name)
+        elif isinstance(st, ast.Import):
+            for a in st.names:
+                out[a.asname or a.name.split(".")[0]] = ("import", a.name, None)
+        elif isinstance(st, (ast.FunctionDef, ast.ClassDef)):
+            out[st.name] = ("local", None, None)
+        elif isinstance(st, (ast.Assign, ast.AnnAssign)):
+            for t in (st.targets if isinstance(st, ast.Assign) else [st.target]):
+                for x in ast.walk(t):
+                    if isinstance(x, ast.Name):
+                        out[x.id] = ("local", None, None)
+    return out
+
+
+def import_private_helpers(tree, trees, pkg):
+    """`from pkg.mod import _helper`: a private module-level function of another module of the package is copied into the
+    importing module (with the imports its body needs), so that it is inlined like a local helper. Skipped when a name its
+    body uses is bound to something else here."""
+    copied = []
+    here = _module_bindings(tree)
+    for st in list(tree.body):
+        if not isinstance(st, ast.ImportFrom) or not st.module:
+            continue
+        parts = st.module.split(".")
+        if parts[0] != pkg or len(parts) != 2 or parts[1] not in trees:
+            continue
+        src = trees[parts[1]]
+        src_b = _module_bindings(src)
+        for a in list(st.names):
+            if not a.name.startswith("_") or a.name.startswith("__") or a.asname:
+                continue
+            fn = next((d for d in src.body if isinstance(d, ast.FunctionDef) and d.name == a.name and not d.decorator_list), None)
+            if fn is None:
+                continue
+            bound = {x.arg for x in fn.args.posonlyargs + fn.args.args + fn.args.kwonlyargs} | {x.id for x in ast.walk(fn) if isinstance(x, ast.Name) and isinstance(x.ctx, ast.Store)}
+            free = {x.id for x in ast.walk(fn) if isinstance(x, ast.Name) and isinstance(x.ctx, ast.Load)} - bound
+            need, okk = [], True
+            for nm in sorted(free):
+                if nm not in src_b:
+                    continue  # builtin
+                kind, mod, orig = src_b[nm]
+                want = ("import", mod, orig) if kind == "import" else ("import", st.module, nm)
+                if nm in here:
+                    if here[nm] != want and not (here[nm][0] == "import" and here[nm][2] == want[2] and (here[nm][1] or "").split(".")[-1] == (want[1] or "").split(".")[-1]):
+                        okk = False
+                        break
+                else:
+                    need.append((nm, want))
+            if not okk:
+                continue
+            for nm, (_, mod, orig) in need:
+                if orig is None:
+                    tree.body.insert(0, ast.Import(names=[ast.alias(name=mod, asname=None if mod.split(".")[0] == nm else nm)]))
+                else:
+                    tree.body.insert(0, ast.ImportFrom(module=mod, names=[ast.alias(name=orig, asname=None if orig == nm else nm)], level=0))
+                here[nm] = ("import", mod, orig)
+            st.names = [x for x in st.names if x is not a]
+            tree.body.append(copy.deepcopy(fn))
+            here[a.name] = ("local", None, None)
+            copied.append(f"{parts[1]}.{a.name}")
+        if not st.names:
+            tree.body = [x for x in tree.body if x is not st]
+    if copied:
+        ast.fix_missing_locations(tree)
+    return copied
+
+
 # ------------------------------------------------------------------------------------------- driver
 def normalise_module(tree: ast.Module):
     info = {"constants": 0, "inlined": {}, "dropped_helpers": []}
